@@ -28,6 +28,7 @@ use serde_json::json;
 include!("obs_parts/val.rs");
 include!("obs_parts/backend.rs");
 include!("obs_parts/harness.rs");
+include!("obs_parts/aguard.rs");
 
 fn base(prop: &'static str) -> Cfg {
     Cfg {
@@ -122,6 +123,13 @@ fn replay<B: Backend>(rf: &ev::ReplayFile, prop: &'static str, sweep_props: &[&s
     None
 }
 
+fn aguard_plans(tier: &str) -> Vec<(&'static str, Vec<ACfg>, usize)> {
+    let q = tier == "quick";
+    vec![
+        ("c16-guards-across-tasks", vec![ACfg { nsubs: 1, max_tasks: 3, only_woken: false }, ACfg { nsubs: 2, max_tasks: 3, only_woken: true }], if q { 5 } else { 6 }),
+    ]
+}
+
 fn static_prop(p: &str) -> &'static str {
     match p {
         "C01" => "C01",
@@ -152,6 +160,12 @@ fn main() {
     };
     if let Some(path) = &cli.replay {
         let rf = ev::read_replay(path);
+        for (name, cfgs, depth) in aguard_plans(&rf.tier) {
+            if name == rf.sweep {
+                let sw = Sweep { name: name.to_string(), h: &AGuardH, cfgs, depth };
+                std::process::exit(ev::replay_sweep(&sw, &rf));
+            }
+        }
         let prop = static_prop(&rf.prop);
         let all = ["C01", "C02", "C03", "C04", "C19", "C20"];
         let r = if prop == "C20" {
@@ -174,12 +188,20 @@ fn main() {
         run_plans::<SyncB<PV>>(&cli, prop, &sync_sweeps, &mut acc, &mut bm, &mut bounds, &opts);
         run_plans::<AsyncB<PV>>(&cli, prop, &async_sweeps, &mut acc, &mut bm, &mut bounds, &opts);
     }
+    if prop == "C16" && acc.violations.is_empty() && !acc.cap_hit {
+        for (name, cfgs, depth) in aguard_plans(&cli.tier) {
+            bounds.push(json!({"sweep": name, "depth": depth, "configurations": cfgs.len(), "flavour": "async"}));
+            let sw = Sweep { name: name.to_string(), h: &AGuardH, cfgs, depth };
+            explore::explore(&sw, &opts, &mut acc, &mut bm);
+        }
+    }
     let require: Vec<&'static str> = match prop {
         "C01" => vec!["skipped_intermediate_values", "pending_polls", "ready_polls", "conditional_setter_declined", "hash_equal_but_different_declined", "update_if_mutated_without_notifying", "setter_through_write_guard"],
         "C02" => vec!["pending_woken_by_update", "pending_woken_by_close", "several_pending_woken_at_once"],
         "C03" => vec!["closed_by_last_owner", "dropped_a_clone_but_not_the_last", "upgrade_succeeded", "upgrade_failed_after_close", "into_shared_with_subscribers", "get_after_end_checked", "none_polls"],
         "C04" => vec!["exclusion_probed_under_guard", "setter_through_write_guard"],
-        "C16" => vec!["skipped_intermediate_values", "pending_woken_by_update", "pending_woken_by_close", "closed_by_last_owner", "upgrade_failed_after_close", "exclusion_probed_under_guard"],
+        "C16" => vec!["skipped_intermediate_values", "pending_woken_by_update", "pending_woken_by_close", "closed_by_last_owner", "upgrade_failed_after_close", "exclusion_probed_under_guard",
+            "task_waits_for_the_lock", "subscriber_polled_under_write_guard", "subscriber_ready_after_waiting", "task_completed_after_waiting", "pending_task_cancelled"],
         "C19" => vec!["counts_with_clones_subscribers_and_weaks", "unique_counts_with_several_subscribers"],
         "C20" => vec!["tracked_sequences_balanced", "into_shared_with_subscribers", "setter_through_write_guard"],
         _ => vec![],
